@@ -73,6 +73,8 @@ AtPointN(s, p) ==
       [] p = "server.resetBeforeClear" -> Cardinality({x \in DOMAIN s.rs : s.rs[x].pc = "r4"})
       [] p = "server.beforeReserve"    -> Cardinality({k \in DOMAIN s.iv : s.iv[k].r = "res"})
       [] p = "server.beforeFastInvoke" -> Cardinality({k \in DOMAIN s.iv : s.iv[k].f = "fast"})
+      [] p = "server.resetBeforeRelease" -> IF s.rdone > 0 THEN 1 ELSE 0
+      [] p = "invoke.beforeSetRenderer" -> IF s.pcV.pc = "v1" THEN 1 ELSE 0
       [] p = "watch.flowsCanceled"     -> IF s.pcW.pc = "w3" THEN 1 ELSE 0
       [] p = "server.sendResponse"      -> Cardinality({c \in DOMAIN s.calls : s.calls[c].api = "response" /\ s.calls[c].st = "issued"})
       [] p = "server.sendErrorResponse" -> Cardinality({c \in DOMAIN s.calls : s.calls[c].api = "error" /\ s.calls[c].st = "issued"})
@@ -261,7 +263,7 @@ InvokeInitFailedEn(s) == s.pcV.pc = "fail0"
 InvokeInitFailedDo(s) == Emit([s EXCEPT !.pcV.pc = "fail"], TelEv("InvokeStart", "", "", "", s.pcV.k))
 
 \* v1: InvokeStart, re-arm barriers, count INVOKE subscribers, set renderer, release parties
-DispatchEn(s) == s.pcV.pc = "v1"
+DispatchEn(s) == s.pcV.pc = "v1" /\ Free(s, "invoke.beforeSetRenderer")
 DispatchDo(s) ==
     LET vg1  == ResetAll(s.vg)
         subs == Subscribed(s, "INVOKE")
@@ -332,6 +334,11 @@ Release(s) ==
     IF s.srv.inv = 0 THEN s
     ELSE [s EXCEPT !.srv.resc = @ \cup {s.srv.inv}, !.srv.inv = 0, !.srv.stream = FALSE, !.srv.sent = FALSE,
                    !.srv.sowner = 0]
+
+\* Server.Reset, after receiving the completion message of the reset goroutine (which has released the
+\* reservation in Server.Clear): as found ("reset-wrapper-releases", F-C10-4) it called Release once more and
+\* thereby dropped a reservation made in between; repaired by 462e73b
+WrapperRelease(s) == IF "reset-wrapper-releases" \in AsFound THEN Release(s) ELSE s
 
 \* observable: a caller enters Server.Invoke
 CallerStartEn(s, c) == s.busy[c] = 0
@@ -417,9 +424,9 @@ RelAwaitDo(s, k) ==
     ELSE [s EXCEPT !.srv.phase = "idle", !.iv[k].r = "sendok"]     \* ErrReleaseReservationDone is not an error
 
 \* Reset returned to the release goroutine: Release, then the error goes to main
-RelAfterResetEn(s, k) == s.iv[k].r = "rst" /\ s.rdone > 0
+RelAfterResetEn(s, k) == s.iv[k].r = "rst" /\ s.rdone > 0 /\ Free(s, "server.resetBeforeRelease")
 RelAfterResetDo(s, k) ==
-    [Release([s EXCEPT !.rdone = @ - 1]) EXCEPT !.iv[k].r = "senderr", !.iv[k].relRes = "InvokeDoneFailed"]
+    [WrapperRelease([s EXCEPT !.rdone = @ - 1]) EXCEPT !.iv[k].r = "senderr", !.iv[k].relRes = "InvokeDoneFailed"]
 
 \* main receives from releaseSuccessChan / releaseErrChan
 MainGotResultEn(s, k) == s.iv[k].m = "sel" /\ s.iv[k].r \in {"sendok", "senderr"}
@@ -436,8 +443,8 @@ MainTimeoutDo(s, k) ==
                          IF x = <<k, "T">> THEN [pc |-> "r0", reason |-> "Timeout", dl |-> s.iv[k].t0 + s.timeoutMs + 2000]
                          ELSE s.rs[x]]]
 
-MainAfterResetEn(s, k) == s.iv[k].m = "rst" /\ s.rdone > 0
-MainAfterResetDo(s, k) == [Release([s EXCEPT !.rdone = @ - 1]) EXCEPT !.iv[k].m = "sel2"]
+MainAfterResetEn(s, k) == s.iv[k].m = "rst" /\ s.rdone > 0 /\ Free(s, "server.resetBeforeRelease")
+MainAfterResetDo(s, k) == [WrapperRelease([s EXCEPT !.rdone = @ - 1]) EXCEPT !.iv[k].m = "sel2"]
 
 MainAfterTimeoutEn(s, k) == s.iv[k].m = "sel2" /\ s.iv[k].r \in {"sendok", "senderr"}
 MainAfterTimeoutDo(s, k) == [s EXCEPT !.iv[k].m = "ret", !.iv[k].out = "InvokeTimeout", !.iv[k].r = "off"]
@@ -500,7 +507,7 @@ DriverResetDo(s, reason, dl) ==
                          IF x = <<0, "X">> THEN [pc |-> "r0", reason |-> reason, dl |-> dl] ELSE s.rs[x]],
               !.drv = "reset", !.drvDl = dl]
 DriverResetRetEn(s) == s.drv = "reset" /\ s.rdone > 0
-DriverResetRetDo(s) == [Release([s EXCEPT !.rdone = @ - 1]) EXCEPT !.drv = "idle"]
+DriverResetRetDo(s) == [WrapperRelease([s EXCEPT !.rdone = @ - 1]) EXCEPT !.drv = "idle"]
 
 DriverShutdownEn(s) == s.drv = "idle"
 DriverShutdownDo(s) == [s EXCEPT !.drv = "shut"]
